@@ -116,6 +116,55 @@ def face_shape(t, base):
     return inner[0] == "unwrap_or" and inner[1] == base
 
 
+def table_prims(prog):
+    """when the type-id table is data (a const slice searched with find) rather than two `match`es, the two look-up
+    functions are given the value their `match` form evaluates to: a phi over the rows, first matching row first"""
+    from . import C14 as _C14
+    VT = "rbx_types::variant::VariantType::"
+    TID = "rbx_types::attributes::type_id::"
+    out = []
+    for name, direction in (("from_variant_type", "from"), ("to_variant_type", "to")):
+        fn = prog.fns.get(TID + name)
+        if fn is None or fn.body is None or any(x.get("k") == "Match" and x.get("src") == "Normal" for x in core.walk_fn(fn)):
+            continue
+        first, rows = _C14.data_table(prog, fn)
+        if not rows:
+            continue
+        table = []
+        seen = set()
+        for v, i in (first + rows) if direction == "from" else rows:
+            k = v if direction == "from" else i
+            if k not in seen:
+                seen.add(k)
+                table.append((v, i))
+
+        def prim(I, n, path, arg_nodes, env, table=table, direction=direction):
+            arg = I.eval(arg_nodes[0], env)
+            alts, conds = [], []
+            for v, i in table:
+                if direction == "from":
+                    if arg[0] == "var":
+                        if arg[1] == VT + v:
+                            return var(SOME, C(i))
+                        continue
+                    cnd = ("is", arg, VT + v)
+                    alts.append((cnd, var(SOME, C(i))))
+                else:
+                    if arg[0] == "c":
+                        if arg[1] == i:
+                            return var(SOME, var(VT + v))
+                        continue
+                    cnd = ("op", "==", arg, C(i))
+                    alts.append((cnd, var(SOME, var(VT + v))))
+                conds.append(cnd)
+            if not alts:
+                return var(NONE)
+            alts.append((("else", tuple(conds)), var(NONE)))
+            return ("phi", tuple(alts))
+        out.append((re.compile(re.escape(TID + name) + "$"), prim))
+    return out
+
+
 def run(c, prog):
     R = "C14.arm"
     c.rule(R, "for each attribute type: the byte grammar the writer emits is the one the reader consumes (same primitives, same loop domains, length prefixes equal to what follows) and the value the reader builds is the identity on the value written — every leaf field exactly once in its own position — modulo String->BinaryString, rotation snapping and the unused ColorSequence envelope")
@@ -123,6 +172,9 @@ def run(c, prog):
     r = prog.fn(RD + "read_attributes")
     prims_w = wire.BYTE_PRIMS
     prims_r = wire.BYTE_PRIMS + [(re.compile(r"attributes::reader::read_exact_or_none$"), p_reon), (re.compile(r"BTreeMap::<K, V, A>::insert$"), p_insert)]
+    tp = table_prims(prog)
+    prims_w = prims_w + tp
+    prims_r = prims_r + tp
     try:
         Iw, _, _ = wire.run_region(prog, w.body, {w.params[0]["lid"]: ("in", "map"), w.params[1]["lid"]: ("in", "writer")}, prims_w)
         Ir, _, _ = wire.run_region(prog, r.body, {r.params[0]["lid"]: ("in", "reader")}, prims_r)
